@@ -18,7 +18,7 @@ def cases(tier, seed):
 
 def required(tier):
     return ['g2/subgroup', 'g2/twist-random', 'g2/cofactor-cleared', 'g2/order-13', 'g2/order-1621', 'g2/order-13*1621', 'g2/order-big',
-            'g2/subgroup+small', 'g2/near-miss', 'g2/wrong-curve', 'g2.aff.new/accept', 'g2.aff.new/reject', 'g2.from_slice/accept',
+            'g2/subgroup+small', 'g2/near-miss', 'g2/wrong-curve', 'g2/wrong-curve-one-component', 'g2.aff.new/accept', 'g2.aff.new/reject', 'g2.from_slice/accept',
             'g2.from_slice/reject', 'g2.from_uncompressed/reject', 'g2.from_compressed/reject', 'g2.from_compressed/accept',
             'g1/valid', 'g1/near-miss', 'g1/random', 'g1.aff.new/accept', 'g1.aff.new/reject', 'curve-constant']
 
@@ -62,6 +62,19 @@ def run(ctx, spec):
                 sc = (3, 5)
             s2 = rm.f2mul(sc, sc)
             pts.append(('wrong-curve', (rm.f2mul(sub[0], s2), rm.f2mul(sub[1], rm.f2mul(s2, sc)))))
+        # ... and such a scale with s^6 = 1 + beta*u: the isomorphic curve's constant then agrees with 5u in its IMAGINARY component
+        # only (a curve test that compares one component would pass); real s gives agreement in the real component only
+        for _ in range(12):
+            beta_ = rng.randrange(1, q)
+            rt2 = rm.f2sqrt((1, beta_))
+            if rt2 is None:
+                continue
+            sc = rm.f2_cuberoot(rt2) or rm.f2_cuberoot(rm.f2neg(rt2))
+            if sc is None:
+                continue
+            s2 = rm.f2mul(sc, sc)
+            pts.append(('wrong-curve-one-component', (rm.f2mul(sub[0], s2), rm.f2mul(sub[1], rm.f2mul(s2, sc)))))
+            break
         for cls, P in pts:
             if P is None:
                 continue
